@@ -450,27 +450,64 @@ func c08Text(c *Ctx, pk *packages.Package) {
 		return true
 	})
 	req, strip, split := false, false, false
-	ast.Inspect(pm.Decl.Body, func(n ast.Node) bool {
-		switch x := n.(type) {
-		case *ast.BinaryExpr:
-			if x.Op == token.NEQ {
-				if tv, has := info.Types[x.Y]; has && tv.Value != nil && tv.Value.ExactString() == "10" {
-					req = true
+	// ParseManifest and the package's own functions it is split into (two levels)
+	pmBodies := []*ast.BlockStmt{pm.Decl.Body}
+	seenBody := map[*ast.BlockStmt]bool{pm.Decl.Body: true}
+	for lvl, from := 0, pmBodies; lvl < 2; lvl++ {
+		var next []*ast.BlockStmt
+		for _, b := range from {
+			ast.Inspect(b, func(n ast.Node) bool {
+				if call, ok := n.(*ast.CallExpr); ok {
+					if fn := Callee(info, call); fn != nil && fn.Pkg() != nil && strings.HasSuffix(fn.Pkg().Path(), "private/bufpkg/bufcas") && fn.Name() != "ParseFileNode" {
+						if fr := p.Func("private/bufpkg/bufcas", fn.Name()); fr != nil && fr.Obj == fn && fr.Decl.Body != nil && !seenBody[fr.Decl.Body] {
+							seenBody[fr.Decl.Body] = true
+							next = append(next, fr.Decl.Body)
+						}
+					}
 				}
-			}
-		case *ast.SliceExpr:
-			if x.High != nil && strings.Contains(exprString(x.High), "- 1") {
-				strip = true
-			}
-		case *ast.CallExpr:
-			if fn := Callee(info, x); fn != nil && calleeIs(fn, "strings", "Split") {
-				if s, ok := stringLit(info, x.Args[1]); ok && s == "\n" {
-					split = true
-				}
-			}
+				return true
+			})
 		}
-		return true
-	})
+		pmBodies = append(pmBodies, next...)
+		from = next
+	}
+	for _, pmBody := range pmBodies {
+		ast.Inspect(pmBody, func(n ast.Node) bool {
+			switch x := n.(type) {
+			case *ast.BinaryExpr:
+				if x.Op == token.NEQ {
+					if tv, has := info.Types[x.Y]; has && tv.Value != nil && tv.Value.ExactString() == "10" {
+						req = true
+					}
+				}
+			case *ast.UnaryExpr:
+				// !strings.HasSuffix(s, "\n")
+				if call, ok := ast.Unparen(x.X).(*ast.CallExpr); ok && x.Op == token.NOT {
+					if fn := Callee(info, call); fn != nil && calleeIs(fn, "strings", "HasSuffix") {
+						if s, ok := stringLit(info, call.Args[1]); ok && s == "\n" {
+							req = true
+						}
+					}
+				}
+			case *ast.SliceExpr:
+				if x.High != nil && strings.Contains(exprString(x.High), "- 1") {
+					strip = true
+				}
+			case *ast.CallExpr:
+				if fn := Callee(info, x); fn != nil && calleeIs(fn, "strings", "Split") {
+					if s, ok := stringLit(info, x.Args[1]); ok && s == "\n" {
+						split = true
+					}
+				}
+				if fn := Callee(info, x); fn != nil && calleeIs(fn, "strings", "TrimSuffix") {
+					if s, ok := stringLit(info, x.Args[1]); ok && s == "\n" {
+						strip = true
+					}
+				}
+			}
+			return true
+		})
+	}
 	c.Ob("TEXT-AGREEMENT", "manifest/newline-protocol", pm.Decl.Pos(), nl && req && strip && split, true,
 		"writer ends every node with a newline (%v); parser requires a trailing newline (%v), strips exactly one (%v) and splits on it (%v)", nl, req, strip, split)
 }
